@@ -333,11 +333,21 @@ Lemma consts_parts c : registry_consts_ok c = true ->
   well_formed (rc_sentinel c) (rc_ds c) = true /\ well_formed (rc_sentinel c) (rc_flt c) = true
   /\ well_formed (rc_sentinel c) (rc_out c) = true
   /\ r_kind (rc_ds c) = Datasource /\ r_kind (rc_flt c) = Filter /\ r_kind (rc_out c) = Output
-  /\ guards_match c = true /\ rc_lookup_ok c = true.
+  /\ guards_match c = true /\ rc_lookup_ok c = true /\ rc_entries_ok c = true /\ rc_dispatch c = DispatchCallByName.
 Proof.
   unfold registry_consts_ok. intros H.
   apply andb_true_iff in H as [H Hg]. apply andb_true_iff in H as [H Hk]. apply andb_true_iff in H as [H H3].
-  apply andb_true_iff in H as [H H2]. apply andb_true_iff in H as [Hl H1].
+  apply andb_true_iff in H as [H H2]. apply andb_true_iff in H as [H H1].
+  apply andb_true_iff in H as [H Hd]. apply andb_true_iff in H as [Hl He].
   destruct (r_kind (rc_ds c)), (r_kind (rc_flt c)), (r_kind (rc_out c)); try discriminate.
+  destruct (rc_dispatch c); try discriminate.
   repeat split; assumption.
+Qed.
+
+(** dispatch is the modelled lookup of the configured output name and nothing else *)
+Theorem dispatch_is_call c : registry_consts_ok c = true ->
+  forall cfg n, dispatch c cfg n = call (rc_sentinel c) (rc_out c) cfg n.
+Proof.
+  intros H cfg n. destruct (consts_parts c H) as [_ [_ [_ [_ [_ [_ [_ [_ [_ Hd]]]]]]]]].
+  unfold dispatch. now rewrite Hd.
 Qed.
